@@ -10,7 +10,7 @@ CHECKS = {
                             "blocked bounded-queue and mutex sleepers are covered by the C09 and C08 checks"]},
     "C03": {"scenarios": ["c03"], "quick_budget_s": 50, "thorough_budget_s": 900,
             "real": ["exception paths of task_dispatcher, task_group_context, start_for/start_reduce/for_each/invoke/pipeline tasks, task_group, task_arena::execute delegation, flow graph function_node"]},
-    "C04": {"scenarios": ["c04", "c04b"], "quick_budget_s": 50, "thorough_budget_s": 900,
+    "C04": {"scenarios": ["c04", "c04b", "c04c"], "quick_budget_s": 50, "thorough_budget_s": 900,
             "real": ["src/tbb/task_group_context.cpp (bind, propagate, cancel), context lists in thread_data, parallel_for as the binder"]},
     "C05": {"scenarios": ["c05"], "quick_budget_s": 50, "thorough_budget_s": 900,
             "real": ["include/oneapi/tbb/parallel_for.h, partitioner.h, blocked_range*.h, blocked_nd_range.h, parallel_for_each.h, parallel_invoke.h + scheduler"],
@@ -45,7 +45,7 @@ CHECKS = {
             "real": ["include/oneapi/tbb/collaborative_call_once.h, enumerable_thread_specific.h, combinable.h + scheduler (helpers joining the winner's nested parallelism)"]},
     "C20": {"scenarios": ["c20", "c20b"], "quick_budget_s": 45, "thorough_budget_s": 600,
             "real": ["src/tbb/task.cpp (suspend/resume), co_context.h with real ucontext coroutines (makecontext/swapcontext inside simulated threads), task_dispatcher resume paths, arena coroutine cache"]},
-    "C08": {"scenarios": ["c08", "c08b"], "quick_budget_s": 45, "thorough_budget_s": 600,
+    "C08": {"scenarios": ["c08", "c08b", "c08c"], "quick_budget_s": 45, "thorough_budget_s": 600,
             "real": ["include/oneapi/tbb/{spin,queuing,}_mutex.h, {spin_rw,queuing_rw,rw}_mutex.h, src/tbb/queuing_rw_mutex.cpp, rtm_mutex.cpp, rtm_rw_mutex.cpp (fallback paths)"],
             "assumptions": ["speculative (RTM) variants run their non-transactional fallback paths only"]},
 }
